@@ -158,6 +158,7 @@ static void stiefel_Gs3(double *restrict Gs, double beta, double X) {
 /************************************
  * Keplerian motion for one planet  */
 void reb_whfast_kepler_solver(const struct reb_simulation* const r, struct reb_particle* const restrict p_j, const double M, unsigned int i, double _dt){
+    REB_VERIF(r, "ksolve", 3, (double)i, M, _dt);
     const struct reb_particle p1 = p_j[i];
 
     const double r0 = sqrt(p1.x*p1.x + p1.y*p1.y + p1.z*p1.z);
@@ -346,6 +347,7 @@ void reb_whfast_kepler_solver(const struct reb_simulation* const r, struct reb_p
 /***************************** 
  * Interaction Hamiltonian  */
 void reb_whfast_interaction_step(struct reb_simulation* const r, const double _dt){
+    REB_VERIF(r, "kick", 2, _dt, r->dt);
     const unsigned int N_real = r->N-r->N_var;
     const int N_active = (r->N_active==-1 || r->testparticle_type ==1)?(int)N_real:r->N_active;
     const double G = r->G;
@@ -439,6 +441,7 @@ void reb_whfast_interaction_step(struct reb_simulation* const r, const double _d
     };
 }
 void reb_whfast_jump_step(const struct reb_simulation* const r, const double _dt){
+    REB_VERIF(r, "jump", 2, _dt, r->dt);
     const struct reb_integrator_whfast* const ri_whfast = &(r->ri_whfast);
     struct reb_particle* const p_h = r->ri_whfast.p_jh;
     const int N_real = r->N - r->N_var;
@@ -501,6 +504,7 @@ void reb_whfast_jump_step(const struct reb_simulation* const r, const double _dt
  * DKD Scheme                */
 
 void reb_whfast_kepler_step(const struct reb_simulation* const r, const double _dt){
+    REB_VERIF(r, "kepler", 2, _dt, r->dt);
     const double m0 = r->particles[0].m;
     const double G = r->G;
     const unsigned int N_real = r->N-r->N_var;
@@ -545,6 +549,7 @@ void reb_whfast_kepler_step(const struct reb_simulation* const r, const double _
 }
 
 void reb_whfast_com_step(const struct reb_simulation* const r, const double _dt){
+    REB_VERIF(r, "com", 2, _dt, r->dt);
     struct reb_particle* const p_j = r->ri_whfast.p_jh;
     p_j[0].x += _dt*p_j[0].vx;
     p_j[0].y += _dt*p_j[0].vy;
@@ -596,6 +601,7 @@ static void reb_whfast_corrector_Z(struct reb_simulation* r, const double a, con
 
 void reb_whfast_apply_corrector(struct reb_simulation* r, double inv, int order){
     const double dt = r->dt;
+    REB_VERIF(r, "corr_b", 2, inv, (double)order);
     if (order==3){
         // Third order corrector
         reb_whfast_corrector_Z(r, reb_whfast_corrector_a_1*dt,-inv*reb_whfast_corrector_b_31*dt);
@@ -649,6 +655,7 @@ void reb_whfast_apply_corrector(struct reb_simulation* r, double inv, int order)
         reb_whfast_corrector_Z(r, reb_whfast_corrector_a_7*dt,inv*reb_whfast_corrector_b_172*dt);
         reb_whfast_corrector_Z(r, reb_whfast_corrector_a_8*dt,inv*reb_whfast_corrector_b_171*dt);
     }
+    REB_VERIF(r, "corr_e", 2, inv, (double)order);
 }
 
 static void reb_whfast_operator_C(struct reb_simulation* const r, double a, double b){
@@ -679,8 +686,10 @@ static void reb_whfast_operator_U(struct reb_simulation* const r, double a, doub
 static void reb_whfast_apply_corrector2(struct reb_simulation* r, double inv){
     double a = 0.5 * inv * r->dt;
     double b = reb_whfast_corrector2_b * inv * r->dt;
+    REB_VERIF(r, "corr2_b", 1, inv);
     reb_whfast_operator_U(r, a, b); 
     reb_whfast_operator_U(r, -a, b);
+    REB_VERIF(r, "corr2_e", 1, inv);
 }
 
 void reb_whfast_calculate_jerk(struct reb_simulation* r){
@@ -845,6 +854,7 @@ int reb_integrator_whfast_init(struct reb_simulation* const r){
 }
 
 void reb_integrator_whfast_from_inertial(struct reb_simulation* const r){
+    REB_VERIF(r, "from_in", 1, (double)r->ri_whfast.coordinates);
     struct reb_integrator_whfast* const ri_whfast = &(r->ri_whfast);
     struct reb_particle* restrict const particles = r->particles;
     const int N = r->N;
@@ -872,6 +882,7 @@ void reb_integrator_whfast_from_inertial(struct reb_simulation* const r){
 }
 
 void reb_integrator_whfast_to_inertial(struct reb_simulation* const r){
+    REB_VERIF(r, "to_in", 1, (double)r->ri_whfast.coordinates);
     struct reb_integrator_whfast* const ri_whfast = &(r->ri_whfast);
     struct reb_particle* restrict const particles = r->particles;
     const int N = r->N;
@@ -1012,6 +1023,7 @@ void reb_integrator_whfast_synchronize(struct reb_simulation* const r){
         // Non recoverable error occured.
         return;
     }
+    REB_VERIF(r, "sync_b", 2, (double)ri_whfast->is_synchronized, (double)ri_whfast->keep_unsynchronized);
     if (ri_whfast->is_synchronized == 0){
         const int N_real = r->N-r->N_var;
         const int N_active = (r->N_active==-1 || r->testparticle_type==1)?N_real:r->N_active;
@@ -1066,6 +1078,7 @@ void reb_integrator_whfast_synchronize(struct reb_simulation* const r){
             ri_whfast->is_synchronized = 1;
         }
     }
+    REB_VERIF(r, "sync_e", 1, (double)ri_whfast->is_synchronized);
 }
 
 void reb_integrator_whfast_part2(struct reb_simulation* const r){
